@@ -7,10 +7,10 @@ import e2e_streams as ES
 
 MODULE = "Props.C08"
 THEOREMS = ["C08_count_within_bound", "C08_large_group_passes", "C08_noise_off_floor", "C03_boxMuller_bound", "C10_adjust_sum",
-            "C10_microdata_rows", "C12_patch", "C18_outlier_keeps_ranges", "C18_tree_invariant", "C18_rows_partitioned"]
-PARTIAL = ["'no input row is lost or counted twice': proved for every tree as `add_row` builds it (C18_rows_partitioned: the leaves' rows are a "
-           "permutation of 0..n-1); the 1-dim push-down that folds outliers is checked on every real tree (C18 oracle) and pinned by the bit-exact "
-           "tree model, not yet inside the induction; the composition of the pieces into one Lean theorem about sample() is not done",
+            "C10_microdata_rows", "C12_patch", "C18_outlier_keeps_ranges", "C18_tree_invariant", "C18_rows_partitioned", "C18_forest_trees1", "C18_forest_tree"]
+PARTIAL = ["'no input row is lost or counted twice' is proved for every tree a forest hands out, folded outliers included (C18_forest_trees1, "
+           "C18_forest_tree: the leaves' rows are a permutation of 0..n-1); the composition of the pieces into one Lean theorem about sample() "
+           "is not done",
            "the hard bound of the deviate is proved over the reals; the double-precision libm evaluation is not covered"]
 ASSUMPTIONS = []
 TRUSTED = ["typed-table generators; strategies single / none / default(<=4 columns)"]
